@@ -1106,6 +1106,7 @@ def run_checked(ctx):
     bad_all = []
     stats = {"runs": 0, "mocks": 0, "focus": 0, "focus_force": 0, "focus_poison": 0, "focus_reject": 0}
     runs = []
+    whole_runs = []
     text_groups = {}
     t0 = time.time()
     samples = []
@@ -1118,6 +1119,8 @@ def run_checked(ctx):
                 text_groups.setdefault(key, {}).setdefault(text, []).append(info)
             for k in stats:
                 stats[k] += st.get(k, 0)
+            if res.trace:
+                whole_runs.append((i, res))
             if res.code == 0 and not bad and res.trace:
                 runs.append((i, cases[i]["desc"], project_trace(T, inst, cases[i], i, res)))
             if not bad and len(samples) < 3 and cases[i]["desc"].get("param") in ("template", "template-data", "formatter") \
@@ -1187,6 +1190,34 @@ def run_checked(ctx):
         if good and any(e["ev"] == "end" for e in evs):
             raise MachineryError("trace specification accepted a trace with one mock's Resolved/Collect events dropped: vacuous")
         ctx.cov["trace_spec_rejects_dropped_event"] = True
+    # ---- the shared run-level trace specification (spec/MockeryTrace.tla): cross-phase consistency of the complete
+    #      hook-event stream (struct / pkgname / template / schema handed on unchanged from Resolved to Collect to Stage ...)
+    import runtrace
+    wr = list(whole_runs)
+    if quick and len(wr) > 200:
+        ctx.rng.shuffle(wr)
+        wr = sorted(wr[:200], key=lambda x: x[0])
+    rj = runtrace.validate_runs(ctx, [r for _, r in wr])
+    own, other = runtrace.mine(rj, "C08")
+    for x in own:
+        # a verdict needs a reproduction: the same world once more from scratch
+        i = wr[x["index"]][0]
+        shutil.rmtree(ctx.scratch / "worlds" / f"w{i}", ignore_errors=True)
+        _, _, res2, _, _ = run_world_once(ctx, T, cases[i], i, quick)
+        rj2 = runtrace.validate_runs(ctx, [res2])
+        own2, _ = runtrace.mine(rj2, "C08")
+        if own2:
+            y = own2[0]
+            ctx.violation({"kind": "run-trace-rejected", "why": y["why"][0]},
+                          {"desc": cases[i]["desc"], "why": y["why"], "at": y["at"], "event": y["event"], "events": y["events"]})
+        else:
+            ctx.note(f"unreproduced run-trace rejection {x['why']} on world {i} (identical second run accepted; not a verdict)")
+    for x in other:
+        ctx.note(f"run-trace clause of {x['props']} rejected a run: {x['why']}")
+    for d in rj.drift:
+        ctx.note("drift: " + ", ".join(d["why"]))
+    ctx.cov["traces_validated_against_impl"] += rj.validated
+    ctx.cov["run_level_traces_validated"] = rj.validated
     t_trace = time.time() - t1
     print(f"replayed {len(cases)} worlds, {stats['runs']} runs in {t_replay:.1f}s; TLC worlds {r.wall:.1f}s; traces {len(runs)} in {t_trace:.1f}s",
           file=sys.stderr)
